@@ -101,6 +101,22 @@ def check_case(ctx, case):
         o = call(rep)
     elif plan == "permuted":
         o = call(lambda: apply(src, [strs[i] for i in case["order"]]))
+    elif plan == "notinplace_then_inplace":
+        # the same statements first without, then with in_place on the same object
+        def seq():
+            first = src.filter(list(strs), in_place=False)
+            if not same(rows(first), want):
+                ctx.violation("filter_wrong", {"plan": plan, "step": "first (in_place=False)"})
+            return src.filter(list(strs), in_place=True)
+        o = call(seq)
+        in_place = True
+    elif plan == "ctor_filters_then_filter":
+        # statements given at construction are stored, not applied; filtering by the same statements must still filter
+        def seq2():
+            c = CSEPCatalog(data=list(events), catalog_id=3, name="c", filters=list(strs))
+            return c.filter(list(strs), in_place=True) if case["order"][0] % 2 else c.filter(in_place=True)
+        o = call(seq2)
+        in_place = None
     elif plan == "stale_then_empty":
         # an earlier non-in-place call (or filters= given at construction) leaves statements on the object;
         # a later call with an empty statement list has no statement to satisfy and keeps every event
@@ -146,7 +162,7 @@ def check_case(ctx, case):
             kind = "filter_wrong:datetime_statement"
         ctx.violation(kind, {"plan": plan, "stmts": strs, "n_got": len(got), "n_want": len(want),
                              "got_ids": [g[0] for g in got][:10], "want_ids": [w[0] for w in want][:10]})
-    if plan not in ("load_catalog", "load_catalog_region"):
+    if plan not in ("load_catalog", "load_catalog_region") and in_place is not None:
         if in_place:
             if o.value is not src:
                 ctx.violation("in_place_returned_other_object", None)
@@ -251,10 +267,12 @@ def cases(draw, max_events=40):
             v = (pool[0] - 1) if draw(st.booleans()) else (pool[-1] + 1)
         if col == 1:
             v = max(MS_LO, min(MS_HI, int(v)))
+            if a == "origin_time" and draw(st.integers(0, 3)) == 0:
+                v = v + draw(st.sampled_from([0.5, -0.5, 0.25]))      # thresholds between two milliseconds are legitimate numbers
         stmts.append([a, draw(st.sampled_from(list(OPS))), v])
-    plan = draw(st.sampled_from(["list", "list", "tuple", "single_str", "chained", "repeated", "permuted", "load_catalog", "stale_then_empty"]))
+    plan = draw(st.sampled_from(["list", "list", "tuple", "single_str", "chained", "repeated", "permuted", "load_catalog", "stale_then_empty", "notinplace_then_inplace", "ctor_filters_then_filter"]))
     case = {"k": "filter", "events": ev, "stmts": stmts, "plan": plan, "in_place": draw(st.booleans())}
-    if plan in ("chained", "permuted", "stale_then_empty"):
+    if plan in ("chained", "permuted", "stale_then_empty", "ctor_filters_then_filter"):
         case["order"] = list(draw(st.permutations(list(range(ns)))))
     if plan == "load_catalog" and draw(st.booleans()):
         # with a region: place the events relative to a generated lattice
